@@ -730,3 +730,38 @@ Proof.
     + pose proof (single_call_count_le k Hk u t). lia.
     + lia.
 Qed.
+
+(** * the harness's executable form of the frame is the model, when names are distinct *)
+Lemma spec_map_length pre args info : length (spec_map pre args info) = length args.
+Proof. revert pre. induction args as [|a r IH]; intros pre; simpl; [reflexivity|]. f_equal. apply IH. Qed.
+Lemma spec_map_nth args : forall pre info i a, nth_error args i = Some a ->
+  nth_error (spec_map pre args info) i = Some (spec_at (pre ++ firstn i args) a info).
+Proof.
+  induction args as [|a0 r IH]; intros pre info i a H; [destruct i; discriminate|].
+  destruct i as [|j]; simpl in *.
+  - inversion H; subst. rewrite app_nil_r. reflexivity.
+  - rewrite (IH (pre ++ [a0]) info j a H), <- app_assoc. reflexivity.
+Qed.
+Lemma nth_error_ext {A} (l1 l2 : list A) : (forall i, nth_error l1 i = nth_error l2 i) -> l1 = l2.
+Proof.
+  revert l2. induction l1 as [|x l1 IH]; intros [|y l2] H; try reflexivity.
+  - specialize (H O). discriminate.
+  - specialize (H O). discriminate.
+  - pose proof (H O) as H0. simpl in H0. inversion H0; subst. f_equal. apply IH. intros i. exact (H (S i)).
+Qed.
+Lemma nth_error_firstn_lt' {A} (l : list A) : forall n i, i < n -> nth_error (firstn n l) i = nth_error l i.
+Proof.
+  induction l as [|x l IH]; intros [|n] [|i] H; simpl; try reflexivity; try lia. apply IH. lia.
+Qed.
+Lemma replace_args_is_spec args info : NoDup (names info) -> replace_args args info = spec_replace args info.
+Proof.
+  intros ND. destruct (replace_args_frame args info ND) as [HL [HN HS]].
+  rewrite <- (firstn_skipn (length args) (replace_args args info)), HS. unfold spec_replace. f_equal.
+  apply nth_error_ext. intros i.
+  destruct (nth_error args i) as [a|] eqn:Hi.
+  - rewrite (spec_map_nth args [] info i a Hi). simpl app.
+    rewrite nth_error_firstn_lt' by (apply nth_error_Some; rewrite Hi; discriminate). apply HN. exact Hi.
+  - apply nth_error_None in Hi.
+    rewrite (proj2 (nth_error_None _ _)) by (rewrite firstn_length; lia).
+    symmetry. apply nth_error_None. rewrite spec_map_length. exact Hi.
+Qed.
